@@ -203,6 +203,12 @@ def run(tier):
         chunks = bmp + astral
     for name, (fn, params, pre) in c04k.KERNELS.items():
         call = "    return c04k.KERNELS[%r][0](%s)" % (name, ", ".join(n for n, _ in params))
+        if name.endswith("_seq"):
+            # one condition per (length, depth); quick: length <= 2, thorough: length <= 3
+            for n in range(0, 3 if tier == "quick" else 4):
+                for depth in range(c04k.SEQ_DEPTHS):
+                    conds.append(chrun.Condition("C04:kernel:%s[n=%d,depth=%d]" % (name, n, depth), params, pre + " and n == %d and depth == %d" % (n, depth), call))
+            continue
         if params[0][0] != "c":
             conds.append(chrun.Condition("C04:kernel:" + name, params, pre, call))
             continue
